@@ -27,6 +27,15 @@ class Sim:
         self.env = seq.Env(self.app, **kw)
         self.env.auto_run = False
         self.W = self.env.W
+        self.listeners = [self.env.listener]
+        if cfg.get("listeners", 1) == 2:
+            # a second listening socket on the same map / dispatcher (as create_server does for several listen addresses)
+            import waitress.server
+            from .. import venv as _venv
+
+            l2 = _venv.VSock(self.W, "listen2", listening=True)
+            self.server2 = waitress.server.TcpWSGIServer(self.env._app, map=self.env.map, _sock=l2, dispatcher=self.env.disp, adj=self.env.adj)
+            self.listeners.append(l2)
         self.conns = []  # dict(conn, sent, last_io (ground truth), busy_since)
         self.viol = []
         self.t0 = self.W.now
@@ -52,7 +61,16 @@ class Sim:
         kind = ev[0]
         self.before = [(c["conn"].sock.closed, c["last_io"], c.get("busy_at"), c["opened"]) for c in self.conns]
         if kind == "connect":
-            c = env.connect(pump=False)
+            which = ev[1] if len(ev) > 1 else 0
+            if which == 0:
+                c = env.connect(pump=False)
+            else:
+                from .. import venv as _venv
+
+                env.nconn += 1
+                sk = _venv.VSock(self.W, f"c{env.nconn}", ("127.0.0.1", 41000 + env.nconn))
+                self.listeners[1].backlog.append(sk)
+                c = seq.Conn(env, sk)
             self.conns.append(dict(conn=c, sent=0, last_io=self.W.now, mark=(0, 0), opened=self.W.now))
         elif kind in ("partial", "complete", "reads", "stalls", "trickle"):
             if ev[1] >= len(self.conns):
@@ -99,9 +117,10 @@ class Sim:
         env, cfg = self.env, self.cfg
         limit = cfg["limit"]
         m = env.map
-        if len(m) > limit:
-            self.viol.append(("limit-exceeded", f"{len(m)} descriptors in the socket map, connection_limit={limit}"))
-        backlog = len(env.listener.backlog)
+        extra = len(self.listeners) - 1
+        if len(m) > limit + extra:
+            self.viol.append(("limit-exceeded", f"{len(m)} descriptors in the socket map, connection_limit={limit} (+{extra} for additional listening sockets)"))
+        backlog = sum(len(l.backlog) for l in self.listeners)
         if backlog and len(m) < limit:
             self.viol.append(("not-accepting-below-limit", f"{backlog} connection(s) waiting although only {len(m)} of {limit} descriptors are in use"))
         now = self.W.now
@@ -158,7 +177,9 @@ class Sim:
                 min(int(now - ch.last_activity), cap), min(int(now - c["last_io"]), cap), min(int(now - c.get("busy_at", -10 ** 9)), cap), len(sock.inq),
             ))
         nc = env.server.next_channel_cleanup - now
-        return (tuple(parts), len(env.map), env.server.in_connection_overflow, max(min(int(nc), cap), -1), len(env.disp.queue))
+        s2 = getattr(self, "server2", None)
+        extra = (s2.in_connection_overflow, max(min(int(s2.next_channel_cleanup - now), cap), -1), tuple(len(l.backlog) for l in self.listeners)) if s2 is not None else ()
+        return (tuple(parts), len(env.map), env.server.in_connection_overflow, max(min(int(nc), cap), -1), len(env.disp.queue), extra)
 
     def close(self):
         self.env.close()
@@ -166,6 +187,8 @@ class Sim:
 
 def alphabet(cfg, nconn):
     evs = [("connect",)]
+    if cfg.get("listeners", 1) == 2:
+        evs.append(("connect", 1))
     for i in range(nconn):
         evs += [("partial", i), ("complete", i), ("reads", i), ("stalls", i), ("trickle", i)]
     evs.append(("finish",))
@@ -223,7 +246,7 @@ def bfs(run, cfg, depth, pool, rnd):
                     seen[key] = hh
                     nxt.append(hh)
         frontier = nxt
-    name = f"limit={cfg['limit']},timeout={cfg['timeout']},cleanup={cfg['cleanup']}"
+    name = f"limit={cfg['limit']},timeout={cfg['timeout']},cleanup={cfg['cleanup']},listeners={cfg.get('listeners', 1)}"
     run.add(states=len(seen), transitions=trans, traces_validated_against_impl=trans, evaluations=trans, distinct_nontrivial=len(seen))
     run.part(name, depth=depth, states=len(seen), transitions=trans)
     if seen:
@@ -282,13 +305,15 @@ def main(tier, only=None):
         dict(limit=3, timeout=2, cleanup=1, maxconn=2),
         dict(limit=100, timeout=120, cleanup=30, maxconn=2),
     ]
+    cfgs.append(dict(limit=6, timeout=2, cleanup=1, maxconn=3, listeners=2))
     if tier == "thorough":
         cfgs.append(dict(limit=4, timeout=2, cleanup=30, maxconn=3))
+        cfgs.append(dict(limit=5, timeout=2, cleanup=1, maxconn=3, listeners=2))
     if not only or only == "seq":
         ctx = mp.get_context("fork")
         with ctx.Pool(common.NPROC) as pool:
             for cfg in cfgs:
-                bfs(run, cfg, depth if cfg["limit"] < 100 else depth - 1, pool, rnd)
+                bfs(run, cfg, depth if (cfg["limit"] < 100 and cfg.get("listeners", 1) == 1) else depth - 1, pool, rnd)
     if not only or only == "e1":
         one = c04.req(1).decode("latin-1")
         # the request is pre-queued; the clock is advanced past the timeout while the application runs
